@@ -181,6 +181,56 @@ func writeSites(repo, out string) error {
 		if err != nil {
 			return err
 		}
+		// constructors that only capture the writer (`newRecordWriter(w, n)` returning a struct that holds it):
+		// no error result and no call through the parameter in the body — calling one writes nothing, exactly
+		// like the composite literal `&recordWriter{dst: w}` it stands for
+		captureOnly := map[string]bool{}
+		for _, f := range files {
+			for _, d := range f.Decls {
+				fn, ok := d.(*ast.FuncDecl)
+				if !ok || fn.Body == nil {
+					continue
+				}
+				pw := map[string]bool{}
+				for _, p := range fn.Type.Params.List {
+					if isIOWriter(p.Type) {
+						for _, n := range p.Names {
+							pw[n.Name] = true
+						}
+					}
+				}
+				if len(pw) == 0 {
+					continue
+				}
+				returnsErr := false
+				if fn.Type.Results != nil {
+					for _, r := range fn.Type.Results.List {
+						if id, ok := r.Type.(*ast.Ident); ok && id.Name == "error" {
+							returnsErr = true
+						}
+					}
+				}
+				uses := false
+				ast.Inspect(fn.Body, func(m ast.Node) bool {
+					if c, ok := m.(*ast.CallExpr); ok && usesWriter(c, pw) {
+						uses = true
+					}
+					return !uses
+				})
+				if !returnsErr && !uses {
+					captureOnly[fn.Name.Name] = true
+				}
+			}
+		}
+		calleeName := func(c *ast.CallExpr) string {
+			switch f := c.Fun.(type) {
+			case *ast.Ident:
+				return f.Name
+			case *ast.SelectorExpr:
+				return f.Sel.Name
+			}
+			return ""
+		}
 		for _, f := range files {
 			for _, d := range f.Decls {
 				fn, ok := d.(*ast.FuncDecl)
@@ -343,7 +393,7 @@ func writeSites(repo, out string) error {
 				}
 				walkBlock(fn.Body.List)
 				ast.Inspect(fn.Body, func(n ast.Node) bool {
-					if c, ok := n.(*ast.CallExpr); ok && usesWriter(c, ws) {
+					if c, ok := n.(*ast.CallExpr); ok && usesWriter(c, ws) && !captureOnly[calleeName(c)] {
 						calls = append(calls, c)
 					}
 					return true
@@ -835,6 +885,39 @@ func globals(repo, out string) error {
 						if id, ok := st.Fun.(*ast.Ident); ok && id.Name == "delete" && len(st.Args) > 0 {
 							if g, ok := names[rootOf(st.Args[0])]; ok && !isInit {
 								g.mutated = true
+							}
+						}
+						// a field or element of a package-level variable handed to a callee (`access(registry.table)`):
+						// what it refers to may be written there, so it counts as written after init — and the
+						// place where it is handed over must then lie inside the lock like any other use
+						if !isInit {
+							// callees that may write through what they are given: a function of this package, a
+							// closure or a function-valued parameter (a plain identifier that is not a builtin),
+							// and the in-place sorters; other package-qualified calls (fmt, strings, …) are
+							// taken to read (there are no types here to tell a string from a map)
+							mayWrite := false
+							switch f := st.Fun.(type) {
+							case *ast.Ident:
+								switch f.Name {
+								case "len", "cap", "append", "copy", "delete", "make", "new", "panic", "print", "println", "min", "max":
+								default:
+									mayWrite = true
+								}
+							case *ast.SelectorExpr:
+								if x, ok := f.X.(*ast.Ident); ok && (x.Name == "sort" || x.Name == "slices") {
+									mayWrite = true
+								}
+							}
+							builtinRead := !mayWrite
+							for _, a := range st.Args {
+								switch a.(type) {
+								case *ast.SelectorExpr, *ast.IndexExpr:
+									if id := rootIdent(a); id != nil && !builtinRead && (id.Obj == nil || pkgObjs[id.Obj]) {
+										if g, ok := names[id.Name]; ok && !concurrencySafe[id.Name] {
+											g.mutated = true
+										}
+									}
+								}
 							}
 						}
 						// a method called on a package-level variable may mutate what it points to
